@@ -2,6 +2,12 @@
 (***************************************************************************)
 (* What the real IPClient did with every crafted datagram (harness/c03     *)
 (* TestC05), judged by the acceptance predicate of NtpAccept.tla.          *)
+(* got is decided without the client's log: the measurement call returned  *)
+(* a measurement time-stamped at this datagram's delivery / the client's   *)
+(* filter was called / its interleaved state took the datagram's receive   *)
+(* time (ok); the attempt ended otherwise (error); the datagram was read   *)
+(* and the call is parked again on the same socket (skip).  lg: optional   *)
+(* class according to log records with today's names (strict only).        *)
 (***************************************************************************)
 EXTENDS Integers, Sequences, FiniteSets, TLC, Json
 Nts == FALSE
@@ -23,4 +29,6 @@ NtsOn(r) == "ntson" \in DOMAIN r /\ r.ntson
 TOnlyGenuine == (l > 0 /\ R.got = "ok") => AcceptX(R.d, R.il, NtsOn(R))
 \* strict: the reaction is the one the specification's receive loop has
 SReaction == (l > 0 /\ R.want # "" /\ R.got # "ignored") => R.want = R.got
+\* optional: where log records with the names known today were seen, they tell the same
+SLog == (l > 0 /\ "lg" \in DOMAIN R /\ R.lg # "" /\ R.got # "ignored") => R.lg = R.got
 =============================================================================
